@@ -205,8 +205,8 @@ func verifC12Sequence() {
 	owner := map[netip.AddrPort]*verifRefConn{}
 	muxClosed := false
 	staleWrite := false // a write went through a handle whose connection had been removed from the mux
-	nOps := 3 // (4 operations exhausted a 400k-path budget in 27 min in the thorough tier: not claimed)
-	nAddrs := 3 // two IPv4 addresses + the IPv4-mapped form of the first (IPv6 peers: verifC12DualStack)
+	nOps := 3           // (4 operations exhausted a 400k-path budget in 27 min in the thorough tier: not claimed)
+	nAddrs := 3         // two IPv4 addresses + the IPv4-mapped form of the first (IPv6 peers: verifC12DualStack)
 
 	find := func(c *udpMuxedConn) *verifRefConn {
 		for _, r := range conns {
